@@ -1300,7 +1300,53 @@ func (u *Unit) recv(fr *Frame, st *State, in *ssa.UnOp) Val {
 }
 
 func (u *Unit) send(fr *Frame, st *State, in *ssa.Send) {
-	u.escape(st, u.val(fr, st, in.X))
+	v := u.val(fr, st, in.X)
+	// `at chan.send label: e`: proved right before every channel send of the unit, with
+	// the channel bound as arg0 and the value sent as arg1 (what a unit hands to the
+	// goroutine on the other end is the only thing a contract can say about a send)
+	if fr.contract != nil {
+		for _, at := range fr.contract.AtCalls {
+			if strings.TrimSuffix(at.Callee, "$") != "chan.send" {
+				continue
+			}
+			label := at.Clause.Label
+			if label == "" {
+				label = "1"
+			}
+			u.counters["at@"+at.Callee+"#"+label]++
+			name := fmt.Sprintf("at@%s#%s/site%d", at.Callee, label, u.counters["at@"+at.Callee+"#"+label])
+			env := u.envFor(fr, st, u.entry, nil)
+			env.scopeTolerant = true
+			if env.bound == nil {
+				env.bound = map[string]envVar{}
+			}
+			env.bound["arg0"] = envVar{u.val(fr, st, in.Chan), in.Chan.Type()}
+			env.bound["arg1"] = envVar{v, in.X.Type()}
+			goal, inScope := func() (g *Term, ok bool) {
+				defer func() {
+					if r := recover(); r != nil {
+						if _, is := r.(notInScope); is {
+							g, ok = nil, false
+							return
+						}
+						panic(r)
+					}
+				}()
+				return u.evalBoolF(env, st, at.Clause.Expr), true
+			}()
+			if u.atApplied == nil {
+				u.atApplied = map[string]int{}
+			}
+			if !inScope {
+				u.counters["at@"+at.Callee+"#"+label]--
+				u.atApplied[at.Callee+"#"+label] += 0
+				continue
+			}
+			u.atApplied[at.Callee+"#"+label]++
+			u.addOblNamed(st, "at", name, "at the channel send: "+at.Clause.Src, in.Pos(), goal)
+		}
+	}
+	u.escape(st, v)
 	u.note("channel send: no effect on modelled state")
 }
 
